@@ -13,6 +13,7 @@ bin sum|mean <s> <dims> <vals>                  -> ok [..] | err value
 bins sum|mean <ss> <dims> <vals>                per-axis factors `ss` (same order as dims, slowest first)
 binpix <ss> <dims> <vals>                       the closed-form index map `boxSums` at every coarse pixel (= bins sum)
 binw <s> <dims> <vals> <weights>                weighted mean (non-regular grids)
+binws <ss> <dims> <vals> <weights>              weighted mean, per-axis factors (`binWMeans`)
 bint <s> <dims> <ncomp> <vals>                  tensor field, statistic sum (component-wise `binTensor`)
 bintl sum|mean <ss> <dims> <tshape> <vals>      tensor field as the code reshapes it (`binTensorL`: tensor axes in front, unbinned)
 ss mean|sum <c0> <c> <q> <sep> <ns>             evaluate_supersampled of c0+Σc·x+Σq·x²
@@ -110,6 +111,13 @@ def step (st : St) : List String → St × String
       if s = 0 then (st, "bad-op") else
       if vals.length ≠ fineSize s dims || w.length ≠ vals.length then (st, "err value") else
       (st, "ok " ++ showRatList (binWMean s dims vals w))
+    | _, _, _, _ => (st, "bad-op")
+  | ["binws", ss, dims, vals, w] =>
+    match parseNatList? ss, parseNatList? dims, parseRatList? vals, parseRatList? w with
+    | some ss, some dims, some vals, some w =>
+      if ss.any (· = 0) || ss.length ≠ dims.length then (st, "bad-op") else
+      if vals.length ≠ fineSizes ss dims || w.length ≠ vals.length then (st, "err value") else
+      (st, "ok " ++ showRatList (binWMeans ss dims vals w))
     | _, _, _, _ => (st, "bad-op")
   | ["bint", s, dims, ncomp, vals] =>
     match parseNat? s, parseNatList? dims, parseNat? ncomp, parseRatList? vals with
